@@ -48,7 +48,7 @@ Section Step.
       cbn [sel_match_from] in H. cbn [smatch_from].
       destruct s as [v|]; [|cbn; apply IH; exact H].
       destruct k as [|i|]; [cbn; apply IH; exact H | | discriminate].
-      destruct (fld y i) as [w|]; [|discriminate].
+      destruct (fld y i) as [w|]; [|inversion H; reflexivity].
       destruct (N.eqb w v); [cbn; apply IH; exact H | inversion H; reflexivity].
   Qed.
 
